@@ -312,8 +312,58 @@ def correspond(ctx):
                                 cases.append(case)
                                 ctx.case(("model", n, vec, chunk, pool_n, unit, which, par, dt), n >= 1, case if n == 3 else None, kind="Model." + which + ":" + dt)
     ctx.diff_model(lines, impls, cases)
+    reused_buffers(ctx)
     if not ctx.quick:
         real_pools(ctx)
+
+
+def reused_buffers(ctx):
+    """SEQUENCES of batch calls on ONE model with ONE input buffer that is refilled in place between the calls (what a
+    caller that reuses its arrays does): every call must see the current content (seeded change C10-d: mapped points cached
+    by the identity of the input array).  Physical and unit-hypercube mode, likelihood and prior, pools, vectorised or not."""
+    from nessai.livepoint import numpy_array_to_live_points
+    from nessai.utils.multiprocessing import initialise_pool_variables
+    for vec in (True, False):
+        for pool_n in (None, 2):
+            for unit in (False, True):
+                for chunk in (None, 3):
+                    m = make_model(vec)
+                    m.likelihood_chunksize = chunk
+                    m.vectorised_likelihood = m.vectorised_prior = m.vectorised_prior_unit_hypercube = vec
+                    m.allow_vectorised = True
+                    if pool_n is not None:
+                        m.pool, m.n_pool, m.parallelise_prior = FakePool(pool_n), pool_n, True
+                        initialise_pool_variables(m)
+                    n = 7
+                    buf = numpy_array_to_live_points(np.stack([np.arange(n, dtype=float), np.linspace(-1, 1, n)], axis=1), m.names)
+                    if unit:
+                        buf = m.to_unit_hypercube(buf)
+                    for rnd in range(3):
+                        ids = np.arange(n, dtype=float) + 10.0 * rnd          # refill IN PLACE, same array object
+                        buf["id"] = ids / 1024.0 if unit else ids
+                        case = dict(layer="Model.reused-buffer", vec=vec, pool=pool_n, unit=unit, chunk=chunk, round=rnd)
+                        before = m.likelihood_evaluations
+                        try:
+                            ll = np.asarray(m.batch_evaluate_log_likelihood(buf, unit_hypercube=unit), dtype=float)
+                            lp = np.asarray(m.batch_evaluate_log_prior(buf, unit_hypercube=unit), dtype=float).reshape(-1)
+                        except Exception as e:  # noqa
+                            ctx.oracle_fail("Model.batch_evaluate_log_likelihood", f"batch interface raised {_exc(e)} on a reused buffer", case)
+                            break
+                        want_ll = np.array([point_value(i) for i in ids])
+                        want_lp = np.array([2.0 * i + 1.0 + EPS for i in ids])
+                        if not np.array_equal(ll, want_ll):
+                            ctx.oracle_fail("Model.batch_evaluate_log_likelihood",
+                                            f"call #{rnd} on a buffer refilled in place returned {ll.tolist()}, pointwise values of the "
+                                            f"CURRENT content are {want_ll.tolist()}", case)
+                        if not np.array_equal(lp, want_lp):
+                            ctx.oracle_fail("Model.batch_evaluate_log_prior",
+                                            f"call #{rnd} on a buffer refilled in place returned {lp.tolist()}, pointwise values of the "
+                                            f"CURRENT content are {want_lp.tolist()}", case)
+                        if m.likelihood_evaluations - before != n:
+                            ctx.oracle_fail("Model.batch_evaluate_log_likelihood.counter",
+                                            f"likelihood_evaluations grew by {m.likelihood_evaluations - before} for a batch of {n}", case)
+                        ctx.case(("reused", vec, pool_n, unit, chunk, rnd), True, case if rnd == 1 and vec and unit else None,
+                                 kind="Model.reused-buffer")
 
 
 def _pw(v):
